@@ -5,6 +5,7 @@ package main
 // permission changes) and the C13 clause "every request is answered", evaluated on every transition.
 
 import (
+	"errors"
 	"fmt"
 	"strings"
 	"testing"
@@ -41,13 +42,13 @@ func vfAclAlphabet(thorough bool) []vfAclOp {
 	var ops []vfAclOp
 	users := []int{0, 1, 2, 3}
 	subModes := []string{"", "N", "JRWPS", "JRWPASDO"}
-	selfModes := []string{"N", "JRWPS", "JRWPASDO"}
-	otherModes := []string{"", "N", "JRWPAS", "JRWPASDO"}
+	selfModes := []string{"N", "JRWPS", "JRWPASD", "JRWPASDO"}
+	otherModes := []string{"", "N", "JRWPA", "JRWPASDO"}
 	actors := []int{0, 1}
 	if thorough {
 		subModes = append(subModes, "JRWPASD", "RWPS")
-		selfModes = append(selfModes, "JRWPASD", "JRWPASO")
-		otherModes = append(otherModes, "JRWPS", "RWPAS")
+		selfModes = append(selfModes, "JRWPAS", "JRWPASO")
+		otherModes = append(otherModes, "JRWPS", "JRWPAS", "RWPAS")
 		actors = []int{0, 1, 2}
 	}
 	for _, u := range users {
@@ -139,12 +140,72 @@ func (t *vfTW) aclApply(o vfAclOp) (int, map[string][]*vfFrame) {
 
 const vfAclMaxSubs = 3
 
+var vfErrInjectedStore = errors.New("injected store failure")
+
+// vfFaultOracles judges one request during which exactly one store call failed (C08 fault clause, C13).
+func vfFaultOracles(opname, kind, failed string, k, code int, preDump, postDump string, base *vfXResult, post *vfTopicSnap) []vfXViolation {
+	var out []vfXViolation
+	site := kind + "@" + failed
+	detail := map[string]any{"op": opname, "failing_call": failed, "failing_call_index": k, "code": code, "fault_free_code": base.Code}
+	bad := func(key, what string) {
+		out = append(out, vfXViolation{Key: key, What: what, Detail: detail})
+	}
+	switch {
+	case code == 0:
+		bad("C13:unanswered-on-store-failure:"+site, fmt.Sprintf("%s: store call #%d (%s) failed and the request was never answered", opname, k, failed))
+		if postDump != preDump {
+			bad("C08:unanswered-request-changed-store:"+site, fmt.Sprintf("%s: store call #%d (%s) failed, no reply, store changed:\n%s", opname, k, failed, vfDumpDiff(preDump, postDump)))
+		}
+	case code >= 400:
+		if postDump != preDump {
+			bad("C08:failed-request-changed-store:"+site, fmt.Sprintf("%s: store call #%d (%s) failed, reply %d, yet the store changed:\n%s", opname, k, failed, code, vfDumpDiff(preDump, postDump)))
+		}
+	default:
+		if postDump != base.PostDump {
+			bad("C08:acknowledged-but-not-stored:"+site, fmt.Sprintf("%s: store call #%d (%s) failed, reply %d, store differs from the fault-free outcome:\n%s", opname, k, failed, code, vfDumpDiff(base.PostDump, postDump)))
+		}
+	}
+	for _, d := range post.cacheVsStore() {
+		field := d
+		if i := strings.Index(d, ":"); i > 0 {
+			field = strings.Fields(d[:i])[0]
+		}
+		bad("C08:cache-differs-after-store-failure:"+field+":"+site, fmt.Sprintf("%s: store call #%d (%s) failed (reply %d): %s", opname, k, failed, code, d))
+	}
+	return out
+}
+
+func vfDumpDiff(a, b string) string {
+	am, bm := map[string]bool{}, map[string]bool{}
+	for _, l := range strings.Split(a, "\n") {
+		am[l] = true
+	}
+	for _, l := range strings.Split(b, "\n") {
+		bm[l] = true
+	}
+	var out []string
+	for _, l := range strings.Split(a, "\n") {
+		if !bm[l] {
+			out = append(out, "- "+l)
+		}
+	}
+	for _, l := range strings.Split(b, "\n") {
+		if !am[l] {
+			out = append(out, "+ "+l)
+		}
+	}
+	if len(out) > 12 {
+		out = out[:12]
+	}
+	return strings.Join(out, "\n")
+}
+
 func vfHas(mode string, letter byte) bool { return strings.IndexByte(mode, letter) >= 0 }
 
 func vfAclExec(alphabet []vfAclOp) func(hist []int, last bool) vfXResult {
 	return func(hist []int, last bool) vfXResult {
 		var res vfXResult
-		t := vfBuildTW(vfTWOpts{Users: 4, Boot: vfBootOpts{MaxSubscribers: vfAclMaxSubs}})
+		t := vfBuildTW(vfTWOpts{Users: 4, PreSub: []int{1}, Boot: vfBootOpts{MaxSubscribers: vfAclMaxSubs}})
 		for _, c := range t.cl {
 			c.mark = len(c.frames)
 		}
@@ -155,8 +216,39 @@ func vfAclExec(alphabet []vfAclOp) func(hist []int, last bool) vfXResult {
 				continue
 			}
 			pre := t.snap()
+			preDump := t.w.db.DumpTables(true, "topics", "subs", "messages", "dellog", "topictags")
+			calls0 := t.w.db.Calls()
+			if vfXFault.K > 0 {
+				t.w.db.FailAt(vfXFault.K, vfErrInjectedStore)
+			}
 			code, frames := t.aclApply(op)
+			t.w.db.ClearFaults()
 			post := t.snap()
+			res.NCalls = t.w.db.Calls() - calls0
+			res.PostDump = t.w.db.DumpTables(true, "topics", "subs", "messages", "dellog", "topictags")
+			res.Code = code
+			if vfXFault.K > 0 {
+				failed := "?"
+				for _, j := range t.w.db.Journal() {
+					if j.Seq == calls0+vfXFault.K {
+						failed = j.Name
+					}
+				}
+				kind := op.Kind
+				if ps, ok := pre.live(fmt.Sprintf("u%d", op.Actor)); ok && (op.Kind == "sub" || op.Kind == "setself") && vfHas(op.Mode, 'O') && ps.Given.IsOwner() && !ps.Want.IsOwner() {
+					kind = "accept-transfer"
+				}
+				res.Violations = append(res.Violations, vfFaultOracles(op.String(), kind, failed, vfXFault.K, code, preDump, res.PostDump, vfXFault.Base, post)...)
+				// the single-owner and authorisation rules hold under store failures too
+				for _, v := range vfAclOracles(t, pre, op, code, frames, post) {
+					if strings.HasPrefix(v.Key, "C13:unanswered") || strings.HasPrefix(v.Key, "C08:") {
+						continue // judged by the fault oracle
+					}
+					v.Key += "[" + kind + ":store-failure@" + failed + "]"
+					res.Violations = append(res.Violations, v)
+				}
+				break
+			}
 			res.Violations = append(res.Violations, vfAclOracles(t, pre, op, code, frames, post)...)
 			res.Outcome = fmt.Sprintf("%s:%d", op.Kind, code/100)
 			res.Obs = fmt.Sprintf("%d %s", code, vfFramesCanon(frames))
@@ -227,6 +319,33 @@ func vfAclOracles(t *vfTW, pre *vfTopicSnap, op vfAclOp, code int, frames map[st
 			}
 		}
 		return out
+	}
+
+	// ---- C08 (direct): the loaded topic equals the stored rows at every quiescent state
+	// (reported at the transition that introduces the difference)
+	had := map[string]bool{}
+	subj := func(d string) string {
+		if i := strings.Index(d, ":"); i > 0 {
+			return d[:i]
+		}
+		return d
+	}
+	for _, d := range pre.cacheVsStore() {
+		had[subj(d)] = true
+	}
+	for _, d := range post.cacheVsStore() {
+		if had[subj(d)] {
+			continue
+		}
+		field := d
+		if i := strings.Index(d, ":"); i > 0 {
+			field = strings.Fields(d[:i])[0]
+		}
+		how := op.Kind
+		if op.Kind != "reload" && len(pre.Attached[actor]) == 0 {
+			how += "-unattached"
+		}
+		bad("C08:cache-differs-from-store:"+field+":"+how, fmt.Sprintf("after %s: %s", op, d))
 	}
 
 	owner := pre.Owner
@@ -412,6 +531,8 @@ func init() {
 				}
 				return 3
 			}}
+		vfXModels[name+"-fault"] = &vfXModel{Name: name + "-fault", NumOps: len(a), OpName: func(i int) string { return a[i].String() },
+			Exec: vfAclExec(a), MaxDepth: func(th bool) int { return 2 }, FaultDepth: func(th bool) int { return 2 }}
 	}
 }
 
@@ -424,3 +545,7 @@ func vfAclModelName() string {
 
 func TestVerifC06Acl(t *testing.T) { vfXSearch(t, "C06", "acl", vfAclModelName()) }
 func TestVerifC07Acl(t *testing.T) { vfXSearch(t, "C07", "acl", vfAclModelName()) }
+func TestVerifC08Acl(t *testing.T) { vfXSearch(t, "C08", "acl-direct", vfAclModelName()) }
+func TestVerifC08AclFault(t *testing.T) { vfXSearch(t, "C08", "acl-fault", vfAclModelName()+"-fault") }
+func TestVerifC06AclFault(t *testing.T) { vfXSearch(t, "C06", "acl-fault", vfAclModelName()+"-fault") }
+func TestVerifC13AclFault(t *testing.T) { vfXSearch(t, "C13", "acl-fault", vfAclModelName()+"-fault") }
